@@ -1,1 +1,90 @@
-Require Import Boario.Base.QcLib Boario.Base.Vec Boario.Model.Econ Boario.Model.Events Boario.Corr.Check.
+(* Corr/CheckEv.v - correspondence obligations of the event life-cycle:
+   schedule, aggregation of capacity losses, reconstruction-demand blocks, ledgers. *)
+Require Import Boario.Base.QcLib Boario.Base.Vec Boario.Model.Econ Boario.Model.Events
+  Boario.Model.Sim Boario.Corr.Check.
+Open Scope Qc_scope.
+
+Definition veqb (a b : vec) : bool :=
+  Nat.eqb (length a) (length b) && forallb (fun p => Qceqb (fst p) (snd p)) (combine a b).
+
+(* oracle recovery function: the values the real callable returned for each ledger *)
+Definition rf_oracle (d0 h0 a0 : option vec) (vd vh va : vec) : nat -> vec -> vec :=
+  fun _ init =>
+    match d0 with Some i => if veqb init i then vd else
+      match h0 with Some i' => if veqb init i' then vh else va | None => va end
+    | None =>
+      match a0 with Some i => if veqb init i then va else
+        match h0 with Some i' => if veqb init i' then vh else va | None => va end
+      | None => va end
+    end.
+
+Definition ovcmp (n : nat) (s : Qc) (a b : option vec) : nat :=
+  match a, b with
+  | None, None => 0%nat
+  | Some x, Some y => vcmp n (fun _ => s) x y
+  | _, _ => 3%nat
+  end.
+Definition omcmp (n m : nat) (s : Qc) (a b : option mat) : nat :=
+  match a, b with
+  | None, None => 0%nat
+  | Some x, Some y => mcmp n m (fun _ _ => s) x y
+  | _, _ => 3%nat
+  end.
+Definition onat_eqb (a b : option nat) : bool :=
+  match a, b with
+  | None, None => true | Some x, Some y => Nat.eqb x y | _, _ => false end.
+
+Fixpoint worst (l : list nat) : nat :=
+  match l with [] => 0%nat | x :: r => Nat.max x (worst r) end.
+
+Section EvChecks.
+Variable P : params.
+Let N := NN P.
+Let F := FF P.
+
+(* componentwise comparison of two tracker lists:
+   [status; rid; dmg; hdmg; arb; rem_i; rem_h], scale = the quantum of the ledgers *)
+Definition cmp_trackers (quantum : Qc) (a b : list tracker) : list nat :=
+  if negb (Nat.eqb (length a) (length b)) then [2;2;2;2;2;2;2]%nat else
+  let ps := combine a b in
+  [ worst (map (fun p => if status_eqb (st (fst p)) (st (snd p)) then 0 else 3)%nat ps);
+    worst (map (fun p => if onat_eqb (rid (fst p)) (rid (snd p)) then 0 else 3)%nat ps);
+    worst (map (fun p => ovcmp N quantum (dmg (fst p)) (dmg (snd p))) ps);
+    worst (map (fun p => ovcmp F quantum (hdmg (fst p)) (hdmg (snd p))) ps);
+    worst (map (fun p => ovcmp N (of_frac 1 1000000) (arb (fst p)) (arb (snd p))) ps);
+    worst (map (fun p => omcmp N N quantum (rem_i (fst p)) (rem_i (snd p))) ps);
+    worst (map (fun p => omcmp N F quantum (rem_h (fst p)) (rem_h (snd p))) ps) ].
+
+(* sched.status : [status; rid; nE] *)
+Definition chk_sched (dt t E : nat) (pre post : list tracker) (E' : nat) : list nat :=
+  let '(m, Em) := start t (map (activate dt t) pre) E in
+  let c := cmp_trackers 0 m post in
+  [ nth 0 c 9; nth 1 c 9; if Nat.eqb Em E' then 0 else 3 ]%nat.
+
+(* delta.* : [capital exceeded flag; klost; arb; delta] *)
+Definition chk_delta (post : list tracker) (iexceeded : bool) (ikl iar idelta : option vec) : list nat :=
+  let kl := klost_of N post in
+  let ar := arb_of N post in
+  [ bcmp (capital_exceeded P kl) iexceeded;
+    match ikl with None => 0%nat | Some v => vcmp N z1 kl v end;
+    match iar with None => 0%nat | Some v => vcmp N z1 ar v end;
+    match idelta with None => 0%nat | Some v => vcmp N z1 (delta_of P kl ar) v end ].
+
+(* reb.blocks : the demand matrix after the events phase *)
+Definition chk_blocks (dtq : Qc) (resized : bool) (E : nat) (post : list tracker)
+    (dem idem : mat) : nat :=
+  mcmp N (WW P E) z2 (dem_events P dtq resized E post dem) idem.
+
+(* reb.ledger : ledgers after rebuild_events, ids compacted, number of events *)
+Definition chk_rebuild (prec : Z) (E : nat) (rprod : mat) (pre post : list tracker) (E' : nat)
+  : list nat :=
+  let l := rebuild_ledgers P prec E rprod pre in
+  let nfin := (count_rebuilding pre - count_rebuilding l)%nat in
+  let l' := if Nat.eqb nfin 0 then l else compact_ids pre l in
+  cmp_trackers (pow10 (- prec)) l' post ++ [ if Nat.eqb (E - nfin) E' then 0 else 3 ]%nat.
+
+(* rec.ledger *)
+Definition chk_recover (prec : Z) (t : nat) (pre post : list tracker) : list nat :=
+  cmp_trackers (pow10 (- prec)) (recover_ledgers prec t pre) post.
+
+End EvChecks.
